@@ -916,10 +916,33 @@ def run_dataset(ctx, i):
     ds.polygon_filter_add(pf)
     hist = []
     pf_expected = None
+    cur = np.array(f["points"], dtype=float)        # the polygon the filter should hold now
+    handed = None                                   # vertex array shared with the filter
     try:
         for step in range(int(rng.integers(3, 9))):
             r = rng.random()
-            if step and r < 0.25:
+            if step and r < 0.2:
+                # a vertex is moved: through the setter with a new array, or (the way an
+                # interactive editor does it) in the array that was handed to the setter
+                k = int(rng.integers(0, len(cur)))
+                if f["ptype"] == "grid":
+                    new = cur[k] + rng.integers(-2, 3, size=2)
+                else:
+                    new = q[int(rng.integers(0, n))] * (1 + 1e-3 * rng.normal(size=2))
+                cur = cur.copy()
+                cur[k] = new
+                if rng.random() < 0.5:
+                    pf.points = cur.copy()
+                    handed = None
+                    hist.append(["vertex moved (setter, new array)", k])
+                else:
+                    if handed is None:
+                        handed = pf.points
+                        pf.points = handed
+                    handed[k] = new
+                    hist.append(["vertex moved (in the array handed to the setter)", k])
+                ctx.count("dataset_vertex_moves")
+            elif step and r < 0.25:
                 pf.inverted = not pf.inverted
                 hist.append(["invert", bool(pf.inverted)])
             elif step and r < 0.45:
@@ -935,6 +958,7 @@ def run_dataset(ctx, i):
                 ds.polygon_filter_rm(pf)
                 ds.polygon_filter_add(pf2)
                 pf = pf2
+                handed = None
                 expected_inverted = not was
                 hist.append(["replaced by copy(invert=True)", expected_inverted])
                 # the oracle below uses the flag the copy *should* have
@@ -945,13 +969,18 @@ def run_dataset(ctx, i):
                 ds.config["filtering"][other + " max"] = float(hi)
                 hist.append(["range on another feature"])
             elif step and r < 0.7:
-                pf.points = np.roll(pf.points, 1, axis=0)       # same polygon, shifted start
+                cur = np.roll(cur, 1, axis=0)                   # same polygon, shifted start
+                if handed is not None and rng.random() < 0.5:
+                    handed[:] = np.roll(handed, 1, axis=0)
+                else:
+                    pf.points = np.roll(pf.points, 1, axis=0)
+                    handed = None
                 hist.append(["cyclic shift of the vertices"])
             else:
                 hist.append(["apply"])
             ds.apply_filter()
             got = np.array(ds.filter.polygon, dtype=bool)
-            p0 = np.asarray(f["points"], dtype=float)
+            p0 = cur
             if f["ptype"] == "grid":
                 ins, onb, _rt = batch_halfopen((2 * p0).astype(np.int64)[None],
                                                np.rint(2 * q).astype(np.int64))
